@@ -106,6 +106,14 @@ class Stmt:
         # This matches legacy codegen and ensures proper semantics for cases
         # like `c[0] = c.pop()` where RHS modifies array length.
         src = Expr(node.value, self.ctx).lower()
+        if not src.is_stack_value:
+            # `src` is a location (storage, transient, memory element, ...):
+            # read it now. computing the target pointer can run code (an
+            # internal call in an index expression) which writes to it.
+            if target_typ._is_prim_word:
+                src = VyperValue.from_stack_op(self.ctx.unwrap(src), src.typ)
+            elif len(target.get_descendants((vy_ast.Call, vy_ast.ExtCall, vy_ast.StaticCall))) > 0:
+                src = self.ctx.materialize_value(src)
         dst_ptr = self._get_target_ptr(target)
         self._assign_value(dst_ptr, src, target_typ, src_node=node.value)
 
